@@ -40,6 +40,8 @@ def shards(tier, seed):
         out.append({"N": N, "rx": rx, "sched": sch, "backend": backend, "seed": seed})
     for order in (-1, 0, 1, 2):
         out.append({"N": 256, "rx": "id1", "sched": "ltf", "backend": "cuda", "seed": seed, "orders": [order]})
+    for backend in ("numba", "numpy", "cuda"):
+        out.append({"views": True, "backend": backend, "N": 200, "seed": seed})
     out.sort(key=lambda s: -s["N"] * (20 if s["backend"] == "cuda" else 1))
     return out
 
@@ -53,6 +55,8 @@ def run_shard(shard):
             raise RuntimeError(f"cuda-sim worker failed rc={p.returncode}\n{p.stderr[-3000:]}")
         return json.loads(p.stdout.splitlines()[-1])
     ana.quiet()
+    if shard.get("views"):
+        return _views(shard)
     cuda = shard["backend"] == "cuda"
     out = {"evals": 0, "nontrivial": 0, "failures": [], "samples": [],
            "extra": {"bins_phase_checked": 0, "max_edge_dev": 0.0}}
@@ -84,7 +88,48 @@ def run_shard(shard):
 
 
 def replay(case):
+    if case.get("views"):
+        return run_shard(case)["failures"]
     return run_shard({"backend": case["backend"], "case": case})["failures"]
+
+
+def _views(shard):
+    """The delayed channel handed to the kernels as an overlapping view of the same buffer (x = buf[d:], y = buf[:-d]):
+    the transfer function conj(X)Y/|X|^2 must still be that of a delay (negative phase), on every backend."""
+    from mc import kern, records
+    from mc.ref import estimator as est
+
+    backend = shard["backend"]
+    out = {"evals": 0, "nontrivial": 0, "failures": [], "samples": [], "extra": {"bins_phase_checked": 0, "max_edge_dev": 0.0}}
+    buf = records.id1(shard["N"] + 8) + 0.3 * records.id3(shard["N"] + 8)
+    for d, order, L in itertools.product((1, 2, 5), (-1, 0, 1, 2), (32, 64)):
+        xv, yv = buf[d:d + shard["N"]], buf[0:shard["N"]]     # y[n] = x[n-d]
+        starts = np.arange(0, shard["N"] - L + 1, L // 2, dtype=np.int64)
+        win = np.ascontiguousarray(np.hanning(L))
+        k = kern.get_kernel(backend, True, order)
+        for b in (3.0, 5.37, L / 4):
+            w = 2 * np.pi * b / L
+            got = k(xv, yv, starts, L, win, w)
+            ref = est.ref_stats(np.array(xv), np.array(yv), starts, L, win, w, order)
+            tol = est.tolerances(np.array(xv), np.array(yv), starts, L, win)
+            out["evals"] += 1
+            if not ref[0] > 1e3 * tol[0]:
+                continue
+            out["nontrivial"] += 1
+            H = complex(got[2], -got[3]) / got[0]
+            Href = complex(ref[2], -ref[3]) / ref[0]
+            tH = (np.hypot(tol[2], tol[3]) + abs(Href) * tol[0]) / ref[0] * 2 + 1e-15
+            wd = (w * d) % (2 * np.pi)
+            if not (abs(H - Href) <= tH):
+                key = f"views/Href/{backend}/order={order}"
+                if not any(f_["key"] == key for f_ in out["failures"]):
+                    out["failures"].append(fw.fail(key, f"{key}: delayed copy given as an overlapping view (d={d}, L={L}, bin {b}): Hxy={H!r} but conj(X)Y/|X|^2 = {Href!r}", dict(shard)))
+            elif 0.3 < wd < np.pi - 0.3 and abs(Href - np.exp(-1j * w * d)) <= 0.25:
+                out["extra"]["bins_phase_checked"] += 1
+                if not H.imag < 0:
+                    out["failures"].append(fw.fail(f"views/sign/{backend}", f"delay d={d}: phase {np.angle(H)!r} is not negative", dict(shard)))
+    out["samples"].append({"views": backend, "delays": [1, 2, 5]})
+    return out
 
 
 def _one(c):
